@@ -409,11 +409,12 @@ def run(chk):
                       'fault %s (file class %s): event %d %s(%s) with file=%s restored=%s is not allowed by the specification (previous state %s)'
                       % (o['fault'], o['class'], k + 1, e['op'], e['r'], e['file'], e['res'], o['ev'][k - 1]['file'] if k else 'init'), o)
 
-    if tier == 'thorough':
-        pipeline(chk)
+    pipeline(chk, tier)
 
 
-def pipeline(chk):
-    """Full pipeline: render A (HTML5) -> A.paux ; damage it in several ways; process B with \\ref to A's labels."""
+def pipeline(chk, tier):
+    """Full pipeline: render sibling documents -> .paux files; damage one; compile a document that \\ref's them."""
     from . import _pipeline_c20
-    _pipeline_c20.run(chk)
+    _pipeline_c20.run(chk, 'HTML5')
+    if tier == 'thorough':
+        _pipeline_c20.run(chk, 'XHTML')
